@@ -103,6 +103,14 @@ def family(event):
     return 'not-a-code'
 
 
+def _mk(base):
+    return type('Private' + base.__name__, (base,), {})
+
+
+_ERROR_CLASSES = [_mk(b) for b in (KeyError, LookupError, RuntimeError, TypeError, ValueError, ArithmeticError, OverflowError,
+                                   AttributeError, IndexError, AssertionError)]
+
+
 def run_f(event, text, gender, prec):
     kw = {'errorKlass': PrivateError}
     if gender != 'all':
@@ -162,6 +170,15 @@ def examine(case):
             out.append(V('defaults-spelled-out', ['ulpc', 'stricter-margin-accepts-or-differs'], case, ru[1.0][:3], r[:3]))
         if r[0] == 'ret' and ru[1.5][:2] != r[:2]:
             out.append(V('defaults-spelled-out', ['ulpc', 'laxer-margin-refuses-or-differs'], case, ru[1.5][:3], r[:3]))
+        # the caller's error class may descend from anything (KeyError, LookupError, RuntimeError, TypeError, ValueError,
+        # ArithmeticError, OverflowError ...): the same texts are let through, the same refused - with exactly that class
+        for K in _ERROR_CLASSES:
+            kwk = dict(kwu, errorKlass=K)
+            rk = call(athlib.check_performance_for_discipline, event, text, **kwk)
+            if (r[0] == 'ret' and rk[:2] != r[:2]) or (r[0] == 'exc' and r[1] == 'PrivateError' and (rk[0] != 'exc' or rk[1] != K.__name__)):
+                out.append(V('only-the-given-error', ['error-class-ancestry', K.__mro__[1].__name__, 'returned' if rk[0] == 'ret' else rk[1]],
+                             dict(case, error_class_base=K.__mro__[1].__name__), rk[:3], r[:3]))
+                break
         if fam == 'field':
             rec = record_for(event, gender)
             for u, x in ru.items():
